@@ -34,7 +34,7 @@ def run(shard, tier, seed):
     if shard["kind"] == "hist":
         n = 25 if tier == "quick" else 400
         nb = (6, 14) if tier == "quick" else (6, 30)
-        return chainexec.drive(res, env.subseed(seed, ID, shard["i"]), n, tier, FOCUS, CATS, ID, n_blocks=nb, p_mut=0.4,
+        return chainexec.drive(res, env.subseed(seed, ID, shard["i"]), n, tier, FOCUS, CATS, ID, n_blocks=nb, p_mut=0.4, p_restart=0.08,
                                p_unusual=0.3, p_deep=0.25, deep_halving=True)
     env.import_repo()
     import skepticoin.consensus as C
